@@ -34,7 +34,12 @@ type dictPair struct {
 
 func dictKeyPool(r *rand.Rand, i int) (kind, text string, mk func() jen.Code) {
 	id := func(s string) func() jen.Code { return func() jen.Code { return jen.Id(s) } }
-	switch r.Intn(14) {
+	switch r.Intn(16) {
+	case 14, 15: // a key that itself contains a Dict (struct-valued map keys)
+		a, b := r.Intn(3), r.Intn(3)
+		return "composite-dict", fmt.Sprintf("P{X: %d, Y: %d}", a, b), func() jen.Code {
+			return jen.Id("P").Values(jen.Dict{jen.Id("X"): jen.Lit(a), jen.Id("Y"): jen.Lit(b)})
+		}
 	case 0:
 		n := r.Intn(40) - 10
 		return "int", fmt.Sprint(n), func() jen.Code { return jen.Lit(n) }
@@ -187,6 +192,7 @@ type dictObs struct {
 	vals   []string
 	raw    []string // key source text as written
 	lines  []int
+	ends   []int
 	lbrace int
 	rbrace int
 }
@@ -230,6 +236,7 @@ func observeDict(src []byte) (*dictObs, string) {
 		o.vals = append(o.vals, vb.String())
 		o.raw = append(o.raw, string(src[fset.Position(kv.Key.Pos()).Offset:fset.Position(kv.Colon).Offset]))
 		o.lines = append(o.lines, fset.Position(kv.Pos()).Line)
+		o.ends = append(o.ends, fset.Position(kv.End()).Line)
 	}
 	return o, ""
 }
@@ -293,9 +300,15 @@ func judgeDict(ps []dictPair, formatted, raw []byte) []string {
 	// layout on the formatted output
 	n := len(of.keys)
 	switch {
-	case n <= 1:
+	case n == 0:
 		if of.lbrace != of.rbrace {
-			probs = append(probs, fmt.Sprintf("%d pair(s) but the literal spans lines %d-%d (want inline)", n, of.lbrace, of.rbrace))
+			probs = append(probs, fmt.Sprintf("no pairs but the literal spans lines %d-%d", of.lbrace, of.rbrace))
+		}
+	case n == 1:
+		// inline: the pair starts on the line of the opening brace and the closing brace follows it directly
+		// (the pair itself may span lines if its key or value does)
+		if of.lines[0] != of.lbrace || of.ends[0] != of.rbrace {
+			probs = append(probs, fmt.Sprintf("1 pair but it is not inline: braces on lines %d and %d, pair on lines %d-%d", of.lbrace, of.rbrace, of.lines[0], of.ends[0]))
 		}
 	default:
 		prev := of.lbrace
@@ -304,7 +317,7 @@ func judgeDict(ps []dictPair, formatted, raw []byte) []string {
 				probs = append(probs, fmt.Sprintf("pair %d is not on a line of its own", i))
 				break
 			}
-			prev = l
+			prev = of.ends[i]
 		}
 		if of.rbrace <= prev {
 			probs = append(probs, "closing brace shares a line with the last pair")
